@@ -15,15 +15,26 @@
 ** White-box: includes GC.c (struct GC, GC_Mark, GC_Sweep).
 */
 
+/* a root that lives only in a callee-saved register: r12 is reserved for this variable in the whole translation unit
+** (GC.c included below is compiled here too); the library itself is built -O0 in the instances that use this root kind,
+** so nothing on the way to the stack scan saves r12 on the stack except the collector's own register flush */
+#if defined(__GNUC__) && !defined(__clang__) && defined(__x86_64__)
+register void* vf_keepreg asm("r12");
+#define VF_HAVE_REGROOT 1
+#else
+static void* vf_keepreg;
+#define VF_HAVE_REGROOT 0
+#endif
+
 #include "GC.c"
 #include "vf.h"
 
 enum { K_PLAIN, K_REF, K_BOX, K_ARRAY, K_LIST, K_TABLE, K_TREE, K_TUPLE, K_N };
 static const char KLET[] = "prbaltTu";
 static const char* KNAME[] = { "plain", "Ref", "Box", "Array", "List", "Table", "Tree", "Tuple" };
-enum { R_NONE, R_STACK, R_NEWROOT, R_ROOTREF, R_TLS, R_N };
-static const char RLET[] = "-snrt";
-static const char* RNAME[] = { "none", "stack", "new_root", "root-Ref-holder", "thread-local" };
+enum { R_NONE, R_STACK, R_NEWROOT, R_ROOTREF, R_TLS, R_REG, R_N };
+static const char RLET[] = "-snrtg";
+static const char* RNAME[] = { "none", "stack", "new_root", "root-Ref-holder", "thread-local", "callee-saved-register" };
 
 struct Plain { var a; var b; uint64_t canary; };
 var Plain = Cello(Plain);
@@ -69,6 +80,7 @@ static int targets(struct shape* s, int i, int* out) {
 
 /* kind arity and ownership constraints (in-contract shapes only) */
 static int shape_ok(struct shape* s) {
+  { int nreg = 0; for (int i = 0; i < s->n; i++) if (s->root[i] == R_REG) nreg++; if (nreg > 1 || (nreg && !VF_HAVE_REGROOT)) return 0; }
   for (int i = 0; i < s->n; i++) {
     int d = popcount(s->edges[i]);
     if (s->kind[i] == K_PLAIN && d > 2) return 0;
@@ -193,18 +205,24 @@ static void __attribute__((noinline)) run_shape(struct shape* s) {
   if (e) { vf_violation("shape/build/raises", NULL, "building the heap shape raised %s", vf_exc_name(e)); bad = 1; }
   if (!bad) {
     for (int i = 0; i < s->n; i++) if (s->root[i] == R_STACK) stackroots[i] = N[i];
+    for (int i = 0; i < s->n; i++) if (s->root[i] == R_REG) vf_keepreg = N[i];   /* loaded straight from static storage into r12 */
     scrub_stack();
-    e = VF_CATCH(do_collect());
+    int has_reg = 0; for (int i = 0; i < s->n; i++) if (s->root[i] == R_REG) has_reg = 1;
+    if (has_reg) {
+      /* no try block here: its jmp_buf (in this frame, inside the scanned range) would itself hold a copy of r12 */
+      do_collect(); e = NULL;
+    } else e = VF_CATCH(do_collect());
     if (e) { vf_violation("shape/collect/raises", NULL, "the collection raised %s", vf_exc_name(e)); bad = 1; }
   }
+  if (vf_keepreg == (void*)1) bad = 1;   /* keeps the register variable observably live across the collection */
   if (!bad) {
     /* shadow reachability from the declared roots */
     int reach[MAXN] = {0}; int changed = 1;
     int rkind[MAXN] = {0}, viak[MAXN];   /* which root kind keeps a node alive, and through which representation */
     /* thread-local roots are propagated last, so a node they alone keep alive is labelled as such */
-    static const int prio[] = { R_STACK, R_NEWROOT, R_ROOTREF, R_TLS };
+    static const int prio[] = { R_STACK, R_NEWROOT, R_ROOTREF, R_REG, R_TLS };
     for (int i = 0; i < s->n; i++) viak[i] = -1;
-    for (size_t pi = 0; pi < 4; pi++) {
+    for (size_t pi = 0; pi < 5; pi++) {
       for (int i = 0; i < s->n; i++) if (s->root[i] == prio[pi] && !reach[i]) { reach[i] = 1; rkind[i] = prio[pi]; }
       changed = 1;
       while (changed) {
@@ -245,6 +263,7 @@ static void __attribute__((noinline)) run_shape(struct shape* s) {
     if (s->root[i] == R_TLS) { char key[8]; snprintf(key, sizeof key, "vr%d", i); var e2 = VF_CATCH(rem(current(Thread), $S(key))); (void)e2; }
     stackroots[i] = NULL;
   }
+  vf_keepreg = NULL;
   if (!bad) {
     for (int i = 0; i < s->n; i++) if (HOLD[i]) { del_root(HOLD[i]); HOLD[i] = NULL; }
     /* root nodes: a Box that is a root owns its target, which the del below finalises too */
